@@ -1330,3 +1330,120 @@ def held_types_at(fn, bb, idx=None):
     """guarded types (short) of the guards live at a point: the type-based lock class."""
     gl = guard_locals(fn)
     return {short_ty(gl[l]) for l in _live_at(fn, bb, idx) if l in gl}
+
+
+# ----------------------------------------------------------------------------- discards (P6)
+ERR_TYPES = ('error::StorageError', 'std::io::Error', 'io::no_std::Error', 'error::DatabaseError', 'error::TransactionError',
+             'error::TableError', 'error::CommitError', 'error::SavepointError', 'error::CompactionError', 'error::Error',
+             'error::SetDurabilityError')
+
+
+def result_err_type(dty):
+    if not (dty.startswith('std::result::Result<') or dty.startswith('core::result::Result<')):
+        return None
+    inner = dty[dty.find('<') + 1:-1]
+    depth = 0
+    for i, c in enumerate(inner):
+        if c in '<([':
+            depth += 1
+        elif c in '>)]':
+            if c == '>' and i > 0 and inner[i - 1] == '-':
+                continue
+            depth -= 1
+        elif c == ',' and depth == 0:
+            return inner[i + 1:].strip()
+    return None
+
+
+def local_uses(fn):
+    key = 'uses'
+    if key in fn._sym:
+        return fn._sym[key]
+    uses = defaultdict(list)
+
+    def op(o, where):
+        if o[0] in ('c', 'm'):
+            uses[o[1][0]].append(where)
+            for p in o[1][1]:
+                m = re.match(r'^\[_(\d+)\]$', p)
+                if m:
+                    uses[int(m.group(1))].append(where)
+
+    for i, b in enumerate(fn.blocks):
+        for j, st in enumerate(b['s']):
+            if st[0] == 'a':
+                rv = st[2]
+                w = ('stmt', i, j)
+                k = rv['k']
+                if k in ('use', 'un', 'cast', 'repeat'):
+                    op(rv['o'], w)
+                elif k in ('ref', 'rawptr', 'disc'):
+                    uses[rv['p'][0]].append(w)
+                elif k == 'bin':
+                    op(rv['o'][0], w)
+                    op(rv['o'][1], w)
+                elif k == 'agg':
+                    for o in rv['o']:
+                        op(o, w)
+                if st[1][1]:
+                    uses[st[1][0]].append(('store', i, j))
+        t = b['t']
+        if t['k'] in ('call', 'tailcall'):
+            for a in t['a']:
+                op(a, ('call', i))
+            if t.get('fnop'):
+                op(t['fnop'], ('call', i))
+        elif t['k'] in ('sw', 'assert'):
+            op(t['o'], ('switch', i))
+    fn._sym[key] = uses
+    return uses
+
+
+PASS_THROUGH_DISCARD = ('Result::ok', 'Result::err', 'Result::map_err', 'Result::as_ref', 'Result::map', 'Result::is_ok', 'Result::is_err', 'Option::is_some', 'Option::is_none')
+
+
+def is_discarded(fn, local, depth=0):
+    """the value in `local` is never looked at: no use other than drop / StorageDead, or only
+    pass-through conversions whose own result is discarded."""
+    if local == 0:
+        return False
+    us = local_uses(fn).get(local, [])
+    if not us:
+        return True
+    if depth > 4:
+        return False
+    for u in us:
+        if u[0] == 'call':
+            cs = CallSite(fn, u[1], fn.blocks[u[1]]['t'])
+            d = cs.t['d']
+            if cs.matches(PASS_THROUGH_DISCARD) and not d[1] and cs.matches(('Result::ok', 'Result::err', 'Result::map_err', 'Result::as_ref', 'Result::map')):
+                if is_discarded(fn, d[0], depth + 1):
+                    continue
+            return False
+        elif u[0] == 'stmt':
+            st = fn.blocks[u[1]]['s'][u[2]]
+            # a plain move/copy/ref into another local: follow
+            if not st[1][1] and st[2]['k'] in ('use', 'ref') and st[1][0] != 0:
+                if is_discarded(fn, st[1][0], depth + 1):
+                    continue
+            return False
+        else:
+            return False
+    return True
+
+
+def discard_sites(facts):
+    out = []
+    for f in facts.fn_list:
+        for c in f.calls:
+            if f.blocks[c.bb]['c']:
+                continue
+            et = result_err_type(c.t.get('dty', ''))
+            if et is None or not any(et == e or et.endswith('::' + e) or e in et for e in ERR_TYPES):
+                continue
+            d = c.t['d']
+            if d[1] or d[0] == 0:
+                continue
+            if is_discarded(f, d[0]):
+                out.append(c)
+    return out
